@@ -89,7 +89,7 @@ func NewContractSet() *ContractSet {
 	return &ContractSet{Funcs: map[string]*FuncContract{}, Specs: map[string]*SpecFn{}, Ghosts: map[string]*GhostDecl{}, Invs: map[string]*NamedInv{}, OpaqueSorts: map[string]bool{}}
 }
 
-var kwRe = regexp.MustCompile(`^(spec|axiom|ghost|inv|func|extern|requires|ensures|maintains|modifies|may_panic|deterministic|nooverflow|inline|mode|bytes|loop|assert|locals|lemma|uses|unfold|trusted|pure|opaque|reveal|bounded|keyfns|keyfn|sort|replay|abstract)\b`)
+var kwRe = regexp.MustCompile(`^(spec|axiom|ghost|inv|func|extern|requires|ensures|maintains|modifies|may_panic|deterministic|nooverflow|inline|mode|bytes|loop|assert|locals|lemma|uses|unfold|counts|on_send|trusted|pure|opaque|reveal|bounded|keyfns|keyfn|sort|replay|abstract)\b`)
 
 // logical lines: (keyword, rest, line number)
 type cline struct {
@@ -234,11 +234,14 @@ func (cs *ContractSet) LoadFile(path, pkgPath string) error {
 				v = "true"
 			}
 			cur.Flags[l.kw] = v
-		case "mode", "bytes", "replay":
+		case "mode", "bytes", "replay", "counts", "on_send":
 			cur.Flags[l.kw] = l.rest
 		case "locals", "reveal":
 			// informational
 		case "loop":
+			if cur == nil {
+				return fmt.Errorf("%s:%d: loop clause outside func", path, l.line)
+			}
 			k := strings.Index(l.rest, ":")
 			if k < 0 {
 				return fmt.Errorf("%s:%d: bad loop clause", path, l.line)
